@@ -578,14 +578,15 @@ def has_checksat(text):
 
 
 def pending_at_eof(text):
-    """ground truth for pipe mode: text after the last complete command is not just white space / comments"""
+    """ground truth for pipe mode: text after the last complete command is not just white space / comments.
+    Returns None or the shape: 'unclosed-command' (an open parenthesis), 'open-literal' (input ends inside a string
+    literal or quoted symbol), 'stray-tokens' (atoms at top level, no parenthesis open)."""
     try:
         cmds, ok, _ = smtlex.split_commands(text)
     except smtlex.LexFatal:
-        return False
+        return None
     if ok:
-        return False
-    # stray ')' is reported by the reader; only unclosed groups / stray tokens / open literals are 'pending'
+        return None
     toks, _, st = smtlex.tokenize(text)
     depth = 0
     for t in smtlex.significant(toks):
@@ -594,8 +595,12 @@ def pending_at_eof(text):
         elif t[0] == ")":
             depth -= 1
             if depth < 0:
-                return False
-    return True
+                return None          # a stray ')' is reported by the reader itself
+    if st != "INITIAL":
+        return "open-literal"
+    if depth > 0:
+        return "unclosed-command"
+    return "stray-tokens"
 
 
 def regression_files():
@@ -803,16 +808,19 @@ def run(ctx):
                     ctx.violation("nodiag:status1:%s-mode" % ("file" if mode == "F" else "pipe"),
                                   "exit status 1 without a diagnostic on stdout", dict(script=text[:2000], mode=mode, stdout=out[:400], stderr=err[:300]))
                 # 3. silent problems (ground truth from the tokenizer): pending text at the end of a pipe
-                if mode == "P" and rc == 0 and not diag and "exit" not in text and pending_at_eof(text):
-                    ctx.violation("silent:pending-input-at-eof:pipe-mode",
-                                  "standard input ends inside a command (or with stray tokens): nothing is reported, status 0",
+                shape = pending_at_eof(text) if (mode == "P" and rc == 0 and not diag and "exit" not in text) else None
+                if shape:
+                    ctx.violation("silent:pending-input-at-eof:pipe-mode:" + shape,
+                                  "standard input ends with pending text (%s): nothing is reported, status 0" % shape,
                                   dict(script=text[:2000], stdout=out[:300], rc=rc))
             # 4. the protocol model on the observed events
             if rc in (0, 1) or (isinstance(rc, int) and rc == -signal.SIGABRT and thrown in EXN_MAP):
                 its = list(items)
                 if thrown:
                     its.append("tG:" + EXN_MAP[thrown])
-                tail = "~" if (mode == "P" and "exit" not in text and pending_at_eof(text)) else "."
+                # the model's pending tail is what the reader itself can see (open parenthesis / literal); stray
+                # top-level atoms never reach it (known finding silent:...:stray-tokens)
+                tail = "~" if (mode == "P" and "exit" not in text and pending_at_eof(text) in ("unclosed-command", "open-literal")) else "."
                 model_lines.append("%s gen %s %s" % (mode, ",".join(its) if its else "-", tail))
                 model_expect.append((mode, text, rc, out, "A" if thrown else ("E%d" % rc)))
             # thorough: sanitizers (file mode, every third input + corpus)
